@@ -1,8 +1,15 @@
 """C03: SDS hyperslabs (mfsd.c, putget.c, var.c)"""
 from .core import ob, prop
 
-PG = dict(unit="putget_u.c", file="mfhdf/src/putget.c", objbits=10)
-ob("NCcoordck", "C03", entry="h_NCcoordck", enforce="H4_NCcoordck", mode="proved-finite",
-   replace=["hdf_get_vp_aid"], loops=True, nloops=3, loopcls="P", unwind=34, cex_unwind=34, defines=["MAXR=4","NOMUL","FIXSZ=4"],
-   trusted=["hdf_get_vp_aid", "Hseek", "Hwrite", "DFKconvert", "HDmemfill", "NC_arrayfill", "NC_findattr", "strstr"],
-   **PG)
+PG = dict(unit="putget_u.c", file="mfhdf/src/putget.c", objbits=8)
+CK_TRUST = ["hdf_get_vp_aid", "Hseek", "Hwrite", "DFKconvert", "HDmemfill", "NC_arrayfill", "NC_findattr", "strstr"]
+ob("NCcoordck", "C03", entry="h_NCcoordck", enforce="H4_NCcoordck", mode="proved",
+   replace=["hdf_get_vp_aid"], loops=True, nloops=3, loopcls="P", unwind=34, cex_unwind=34, trusted=CK_TRUST, **PG)
+ob("NCcoordck_verdict", "C03", entry="h_NCcoordck_verdict", enforce="H4_NCcoordck", mode="bounded",
+   bound="at most 2 fill records per call (rank <= 32 is complete: loops unwound 34 times)",
+   replace=["hdf_get_vp_aid"], unwind=34, cex_unwind=34, trusted=CK_TRUST, **PG)
+ob("NC_varoffset", "C03", entry="h_NC_varoffset", enforce="NC_varoffset", mode="bounded",
+   bound="rank<=3, extents<=8, record index<=8, element size in {1,2,4,8}", unwind=5, cex_unwind=5,
+   defines=["MAXR=3"], **PG)
+ob("NCvcmaxcontig", "C03", entry="h_NCvcmaxcontig", enforce="NCvcmaxcontig", mode="proved-finite", unwind=34,
+   cex_unwind=34, **PG)
